@@ -184,6 +184,10 @@ def replay(pl):
     fast = ob.startswith('chunk')
     try:
         d = None
+        if ob.startswith('protocol') or ob.startswith('fixed-jump'):
+            from native import C08
+            d = C08.path_scenarios()
+            return {'confirmed': bool(d), 'detail': d or 'real backtests fill along the single continuous path in the probed scenarios'}
         if ob.startswith('flush.'):
             d = hook_market_scenario()
             return {'confirmed': bool(d), 'detail': d or 'MARKET orders submitted from a fill hook fill at submission time'}
